@@ -68,6 +68,8 @@ def jobs_list(thorough):
     for coord, nm in ((1, "dh"), (2, "whds")):
         add("whfast/default/c0/%s/step" % nm, ["whfast", 0, 0, coord, "step"], "whfast_dh_word", "wh3", dts=both)
         add("whfast/default/c0/%s/unsync" % nm, ["whfast", 0, 0, coord, "unsync"], "whfast_dh_word_unsync", "wh3")
+    for c in (0, 5):
+        add("whfast/default/c%d/recalc x3 while unsynchronized" % c, ["whfast", 0, c, 0, "recalc"], "whfast_recalc_word %d" % c, "wh", dts=both if c == 0 else (DT,))
     add("mercurius/step", ["mercurius", 0, 0, 0, "step"], "hybrid_word", "wh3h", dts=both)
     add("mercurius/unsync", ["mercurius", 0, 0, 0, "unsync"], "hybrid_word_unsync", "wh3h")
     for pm in (0, 1, 2):
